@@ -226,6 +226,27 @@ def malformed_case(rng, cid):
     return Case(cid, ops, dict(msgs=1, chunks=2))
 
 
+def blocking_case(rng, cid):
+    """blocking-mode reads and writes (ctl client / worker start-up path): the whole stream is in the
+    socket before the reads, so nothing waits except a deliberately incomplete last frame"""
+    init, mx = pick_sizes(rng)
+    good = [payload_of_size(rng, msg_size(rng, init, mx)) for _ in range(rng.randint(1, 5))]
+    stream = b"".join(frame(p) for p in good)
+    ops = [["new", init, mx]]
+    cut = rng.random() < 0.15
+    if cut:
+        stream = stream[:-rng.randint(1, 5)]
+        ops.append(["expect"] + good[:-1])
+    else:
+        ops.append(["expect"] + good)
+    ops.append(["arrive", stream])
+    for _ in good:
+        ops.append(["read_b"])
+    for _ in range(rng.randint(0, 3)):
+        ops.append(["write_b", payload_of_size(rng, max(6, rng.choice([6, init - 8, mx - 8, mx - 7, mx + 3, rng.randint(6, mx)])))])
+    return Case(cid, ops, dict(msgs=len(good), chunks=1))
+
+
 def gen_cases(rng, tier):
     n = {"quick": 3000, "thorough": 60000, "search": 20000}.get(tier, 3000)
     out = []
@@ -235,6 +256,8 @@ def gen_cases(rng, tier):
             out.append(delivery_case(rng, "d%d" % i, False))
         elif r < 6:
             out.append(delivery_case(rng, "e%d" % i, True))
+        elif i % 40 == 7:
+            out.append(blocking_case(rng, "b%d" % i))
         elif r < 8:
             out.append(api_case(rng, "a%d" % i))
         elif r < 9:
